@@ -42,6 +42,23 @@ Proof.
   - inversion He; subst. rewrite (Herr x Hx _ _ Hh E1). reflexivity.
 Qed.
 
+Lemma map_eval_pairs_relab_err pairs : Forall (fun p => P (fst p) /\ P (snd p)) pairs -> forall s k, top_hidden s ->
+  map_eval_pairs ev s pairs = Err k -> map_eval_pairs ev (relab L s) pairs = Err k.
+Proof.
+  induction 1 as [|[k0 x] r [Hk Hx] Hr IH]; intros s k Hh He; cbn [map_eval_pairs] in *; [discriminate|].
+  fold (map_eval_pairs ev) in *. cbn [fst snd] in Hk, Hx.
+  destruct (ev s k0) as [[kv s1]| | |] eqn:E1; cbn [bind] in He; try discriminate.
+  2: { inversion He; subst. rewrite (Herr k0 Hk _ _ Hh E1). reflexivity. }
+  destruct (Hev k0 Hk _ _ _ Hh E1) as [R1 V1]. rewrite R1. cbn [bind].
+  assert (Hh1 : top_hidden s1) by exact (top_hidden_env _ _ (eq_sym V1) Hh).
+  destruct (ev s1 x) as [[xv s2]| | |] eqn:E2; cbn [bind] in He; try discriminate.
+  2: { inversion He; subst. rewrite (Herr x Hx _ _ Hh1 E2). reflexivity. }
+  destruct (Hev x Hx _ _ _ Hh1 E2) as [R2 V2]. rewrite R2. cbn [bind].
+  assert (Hh2 : top_hidden s2) by exact (top_hidden_env _ _ (eq_sym V2) Hh1).
+  destruct (map_eval_pairs ev s2 r) as [[vr s3]| | |] eqn:E3; cbn [bind] in He; try discriminate.
+  inversion He; subst. rewrite (IH _ _ Hh2 E3). reflexivity.
+Qed.
+
 Lemma cmp_chain_relab_err m rest : Forall (fun p => P (snd p)) rest -> forall left s k, top_hidden s ->
   cmp_chain m ev left s rest = Err k -> cmp_chain m ev left (relab L s) rest = Err k.
 Proof.
@@ -89,6 +106,11 @@ Proof.
   - destruct (map_eval (eval c fuel esc) s items) as [[vs s1]| | |] eqn:E1; cbn [bind] in He; try discriminate.
     inversion He; subst.
     rewrite (map_eval_relab_err (eval c fuel esc) (fun e => l2_expr e = true) OK ER items (forallb_Forall _ _ Hw) _ _ Hh E1). reflexivity.
+  - destruct (map_eval_pairs (eval c fuel esc) s pairs) as [[kvs s1]| | |] eqn:E1; cbn [bind] in He; try discriminate.
+    inversion He; subst.
+    assert (Hpairs : Forall (fun p => l2_expr (fst p) = true /\ l2_expr (snd p) = true) pairs).
+    { apply forallb_Forall in Hw. eapply Forall_impl; [|exact Hw]. intros p Hp. apply andb_prop in Hp. exact Hp. }
+    rewrite (map_eval_pairs_relab_err (eval c fuel esc) (fun e => l2_expr e = true) OK ER pairs Hpairs _ _ Hh E1). reflexivity.
   - sub He Hh Hw x s1 E1 OK ER. destruct x; try discriminate; exact He.
   - sub He Hh Hw x s1 E1 OK ER. destruct (u_is_true (c_mode c) x); cbn [bind] in He |- *; try discriminate. exact He.
   - apply andb_prop in Hw as [H1 H2].
@@ -115,10 +137,10 @@ Proof.
   - apply andb_prop in Hw as [H1 H2].
     sub He Hh H1 x s1 E1 OK ER. pose proof (TH _ _ _ _ Hh E1) as Hh1.
     sub He Hh1 H2 y s2 E2 OK ER.
-    destruct (match x with VList l => match y with VInt z => idx_list l z | _ => None end | _ => None end); [discriminate|].
+    destruct (get_item_opt x y); [discriminate|].
     destruct (u_handle_undefined (c_mode c) (is_undef x)); cbn [bind] in He |- *; try discriminate. exact He.
   - sub He Hh Hw x s1 E1 OK ER.
-    destruct (match x with VLoop i n => loop_attr i n a | _ => None end); [discriminate|].
+    destruct (get_attr_opt x a); [discriminate|].
     destruct (u_handle_undefined (c_mode c) (is_undef x)); cbn [bind] in He |- *; try discriminate. exact He.
   - apply andb_prop in Hw as [H1 H2].
     sub He Hh H1 x s1 E1 OK ER. pose proof (TH _ _ _ _ Hh E1) as Hh1.
@@ -149,10 +171,10 @@ Proof.
     rewrite R2. cbn [bind].
     assert (Hh2 : top_hidden s2) by (eapply top_hidden_env; [symmetry; exact V2|exact Hh1]).
     destruct (lookup c s2 f) as [fv s3] eqn:El. rewrite (lookup_relab c L HL _ _ _ _ Hh2 El).
-    destruct fv as [[| | | | | | |mc cl| |g]|]; try exact He.
+    destruct fv as [[| | | | | | | |mc cl| |g]|]; try exact He.
     + apply call_macro_relab_err. exact He.
     + destruct (g =? N_range)%Z; [|exact He].
-      destruct vs as [|[| | | |n| | | | |] [|? ?]]; try exact He. destruct kvs; [discriminate|exact He].
+      destruct vs as [|[| | | |n| | | | | |] [|? ?]]; try exact He. destruct kvs; [discriminate|exact He].
 Qed.
 
 End RelabErr.
